@@ -50,6 +50,13 @@ Theorem C13_app_judgement_sound_upto6 : forall sc, JudgeC13P.profile_C13b sc = t
 Proof. exact JudgeC13P.C13_app_judgement_sound_upto6. Qed.
 
 
+(* ---- app stage: the executable judgement of coq/Check is sound for the model on every scenario of the profile, and transfers
+   to every trace that agrees with the model's run ---- *)
+From BEI Require Proofs.JudgeC13bP.
+Theorem C13_app_judgement_sound : forall sc, JudgeC13bP.profile_C13b sc = true -> C13c.ok (sc, App.trace (App.run sc)) = 0%Z.
+Proof. exact JudgeC13bP.C13_app_judgement_sound. Qed.
+
+
 Print Assumptions C13_bind_order.
 Print Assumptions C13_rebind_extends.
 Print Assumptions C13_one_evaluation_per_binding.
@@ -58,3 +65,4 @@ Print Assumptions C13_visibility.
 Print Assumptions C13_chord.
 Print Assumptions C13_block_by.
 Print Assumptions C13_app_judgement_sound_upto6.
+Print Assumptions C13_app_judgement_sound.
